@@ -104,10 +104,14 @@ void fitgroup_spec(const std::string & gname, const std::string & sname, bool in
   const std::vector<double> T0 = {0., 5.5, -3.25};
   const uint64_t nN = Np.size(), nP = interpolating ? NPAT_ALL : NPAT_MIN, nT = mc::thorough() ? 3 : 2;
 
-  // Calibration (thorough alphabet, pinned tree + fit_impl.hpp SparseLU hunk):
-  //   value   worst 4.5e-15 -> TOL_VAL 1e-12 ; velocity continuity worst 3.3e-11 (MinDerivative) -> TOL_VEL 1e-8 ;
-  //   rest    worst 1.6e-12 -> TOL_REST 1e-9   (see report; all >= 100 x worst)
-  const double TOL_VAL = 1e-12, TOL_VEL = 1e-8, TOL_REST = 1e-9;
+  // Tolerances (the statement gives none): max(100 x worst observed, 64 eps), calibrated on the thorough alphabet on the
+  // pinned tree + fit_impl.hpp SparseLU hunk (the tree on which this check first runs clean), per specification class:
+  //                       interpolating specs (SparseLU, square system)    derivative-minimising specs (KKT system)
+  //   value at stamps     worst 1.8e-15 -> 2e-13                           worst 1.5e-12 (MinDerivative<6,4,3>, SE3d) -> 2e-10
+  //   velocity continuity worst 2.6e-15 -> 3e-13                           worst 1.0e-11 (MinDerivative<5,3,3>, SE2d) -> 2e-9
+  //   rest at the ends    worst 1.2e-15 -> 2e-13                           worst 1.6e-9  (MinDerivative<6,4,3>, R^2)  -> 2e-7
+  // (mutants move these measures to 1e-3 .. 1e2, see report)
+  const double TOL_VAL = interpolating ? 2e-13 : 2e-10, TOL_VEL = interpolating ? 3e-13 : 2e-9, TOL_REST = interpolating ? 2e-13 : 2e-7;
 
   mc::explore("C14/fit_spline/" + gname + "/" + sname, nN * nP * nT * NGDATA, [&](mc::Case & c) {
     mc::Radix r(c.idx);
